@@ -66,6 +66,20 @@ def _formatters(ff):
         for b in rets:
             if isinstance(b, ast.BinOp) and isinstance(b.op, ast.Mod) and isinstance(b.left, ast.Constant) and isinstance(b.left.value, str):
                 out.append((nf, b))
+            elif isinstance(b, ast.Call) and isinstance(b.func, ast.Attribute) and b.func.attr == "format" and isinstance(b.func.value, ast.Constant) \
+                    and isinstance(b.func.value.value, str) and not b.keywords and b.func.value.value.count("{}") == len(b.args) \
+                    and "{" not in b.func.value.value.replace("{}", "") and "%" not in b.func.value.value:
+                # "{}.{} : {}".format(a, b, c) is "%s.%s : %s" % (a, b, c)
+                syn = ast.BinOp(left=ast.Constant(value=b.func.value.value.replace("{}", "%s")), op=ast.Mod(),
+                                right=ast.Tuple(elts=list(b.args), ctx=ast.Load()))
+                ast.copy_location(syn, b)
+                ast.fix_missing_locations(syn)
+                for ch in ast.walk(syn):
+                    for c2 in ast.iter_child_nodes(ch):
+                        if not hasattr(c2, "_parent") or c2 in (syn.left, syn.right):
+                            c2._parent = ch
+                syn._parent = getattr(b, "_parent", None)
+                out.append((nf, syn))
     return out
 
 def _callee_quals(r, fi, call):
@@ -178,7 +192,21 @@ def rule_measure(ctx):
     keyed = [s_ for s_ in walk_shallow(fg.node) if isinstance(s_, ast.Assign) and isinstance(s_.targets[0], ast.Subscript)
              and not isinstance(s_.targets[0].slice, ast.Constant) and "len(" in ast.unparse(s_.value)]
     mx = [c for c in walk_shallow(fg.node) if isinstance(c, ast.Call) and isinstance(c.func, ast.Name) and c.func.id == "max"]
-    ctx.check(not keyed and len(mx) >= 2, "WR.MEASURE", "writer.get_section_widths#all-items", fg, keyed[0] if keyed else fg.node,
+    # a running maximum (`if w > widest: widest = w` inside the loop over the items) is a max() written out
+    running = 0
+    for lp_ in [x for x in walk_shallow(fg.node) if isinstance(x, ast.For)]:
+        for iff in [x for x in ast.walk(lp_) if isinstance(x, ast.If) and isinstance(x.test, ast.Compare) and len(x.test.ops) == 1
+                    and isinstance(x.test.ops[0], (ast.Gt, ast.GtE, ast.Lt, ast.LtE))]:
+            sides = {ast.unparse(iff.test.left), ast.unparse(iff.test.comparators[0])}
+            if any(isinstance(a_, ast.Assign) and len(a_.targets) == 1 and {ast.unparse(a_.targets[0]), ast.unparse(a_.value)} == sides
+                   for a_ in iff.body):
+                running += 1
+    if not keyed and len(mx) + running < 2:
+        ctx.undecided("WR.MEASURE", "writer.get_section_widths#all-items", fg, fg.node, "the widths are not taken with max() over the items "
+                      "(nor as a running maximum): how every item is covered is not decided in this form")
+        ctx.floor("WR.MEASURE", 2)
+        return
+    ctx.check(not keyed and len(mx) + running >= 2, "WR.MEASURE", "writer.get_section_widths#all-items", fg, keyed[0] if keyed else fg.node,
               "left and middle widths are the maxima over all items of the section",
               "per-item widths are stored as `%s`: items that share a mnemonic overwrite each other, so the widest of them may not "
               "be measured and its unit is glued to its value" % (unparse(keyed[0]) if keyed else "?"))
@@ -490,7 +518,12 @@ def rule_hdr_post(ctx):
                                     if isinstance(a_, ast.Assign) and any(isinstance(t, ast.Name) and t.id == x.id for t in a_.targets):
                                         out |= fields(a_.value, depth + 1)
                     return out
-                if fields(args[0]) != {"name"} or not isinstance(args[0], ast.Subscript):
+                a0 = args[0]
+                if isinstance(a0, ast.Name):
+                    dfs_ = [a_.value for a_ in walk_shallow(fm.node) if isinstance(a_, ast.Assign) and any(isinstance(t, ast.Name) and t.id == a0.id for t in a_.targets)]
+                    if len(dfs_) == 1:
+                        a0 = dfs_[0]          # `mnemonic = keys["name"]` kept in a local
+                if fields(a0) != {"name"} or not isinstance(a0, ast.Subscript):
                     pr.append("mnemonic argument is `%s`" % unparse(args[0]))
                 if fields(args[1]) != {"unit"}:
                     pr.append("unit argument is `%s`" % unparse(args[1]))
@@ -502,7 +535,7 @@ def rule_hdr_post(ctx):
                 if m != "metadata":
                     if fields(args[2]) != {"value"}:
                         pr.append("value argument is `%s`" % unparse(args[2]))
-                    if fields(args[3]) != {"descr"} or not isinstance(args[3], ast.Subscript):
+                    if fields(args[3]) != {"descr"}:
                         pr.append("description argument is `%s`" % unparse(args[3]))
             else:
                 pr.append("item constructor has %d positional arguments" % len(args))
